@@ -99,7 +99,8 @@ def parseField2 (a : Attempt) (k v : String) : Option Attempt :=
   | "hd" => some { a with hdrOps := a.hdrOps ++ [.del v] }
   | "u" => some { a with setUrl := some v }
   | "s" => v.toNat?.map fun n => { a with status := some n }
-  | "w" =>
+  -- w / wc / wn / ws / wf: how the handler writes (Write, io.Copy, io.CopyN, io.WriteString, fmt.Fprintf); a write of n bytes either way
+  | "w" | "wc" | "wn" | "ws" | "wf" =>
     match v.splitOn "." with
     | [l, s] => match l.toNat?, s.toNat? with
       | some l, some s => some { a with writes := a.writes ++ [expand l s] }
